@@ -203,9 +203,9 @@ theorem C18_optional_param :
 
 /-! ## several values from the last argument -/
 
-theorem expandArgs_ones_multi (n : Nat) (singles vals : List GTy) :
-    expandArgs n (singles.map Arg.one ++ [Arg.multi vals]) = singles ++ vals := by
-  induction singles generalizing n with
+theorem expandArgs_ones_multi (ps : List GTy) (singles vals : List GTy) :
+    expandArgs ps (singles.map Arg.one ++ [Arg.multi vals]) = singles ++ vals := by
+  induction singles generalizing ps with
   | nil => simp [expandArgs]
   | cons g gs ih =>
     cases hgs : gs.map Arg.one ++ [Arg.multi vals] with
@@ -213,11 +213,6 @@ theorem expandArgs_ones_multi (n : Nat) (singles vals : List GTy) :
     | cons x xs =>
       simp only [List.map_cons, List.cons_append, hgs, expandArgs]
       rw [← hgs, ih]
-
-theorem expandArgs_ones (n : Nat) (singles : List GTy) : expandArgs n (singles.map Arg.one) = singles := by
-  induction singles generalizing n with
-  | nil => rfl
-  | cons g gs ih => simp [expandArgs, ih]
 
 /-- **the last argument expands.** When the last argument is a call returning `vals` and the plain
 arguments before it together with `vals` are the instances of the parameters, the call infers the
